@@ -196,3 +196,84 @@ func TestPlacementFrequency(t *testing.T) {
 		},
 	})
 }
+
+// Overlapping dataset creations: placements computed concurrently on one node.
+type ConcCase struct {
+	N, R, P int
+	Workers int   `json:"workers"`
+	Rounds  int   `json:"rounds"`
+	Seed    int64 `json:"seed"`
+}
+
+func validPlacement(pl [][]uint64, n, r, p int) string {
+	want := r
+	if n < want {
+		want = n
+	}
+	if len(pl) != p {
+		return fmt.Sprintf("%d placements for %d partitions", len(pl), p)
+	}
+	for i, ids := range pl {
+		if len(ids) != want {
+			return fmt.Sprintf("partition %d assigned %d nodes %v, expected %d", i, len(ids), ids, want)
+		}
+		seen := map[uint64]bool{}
+		for _, id := range ids {
+			if id < 1000 || (id-1000)%37 != 0 || int((id-1000)/37) >= n {
+				return fmt.Sprintf("partition %d assigned %d which is not a member", i, id)
+			}
+			if seen[id] {
+				return fmt.Sprintf("partition %d assigned node %d twice: %v", i, id, ids)
+			}
+			seen[id] = true
+		}
+	}
+	return ""
+}
+
+func TestPlacementConcurrent(t *testing.T) {
+	pbt.Run(t, pbt.Prop[ConcCase]{
+		ID: "C16", Name: "TestPlacementConcurrent",
+		Rule: "2-4 goroutines compute placements concurrently on one allocator (overlapping dataset creations), 1-6 rounds each, then one more placement after quiescence; every placement must satisfy the count/distinct/member predicate; non-trivial = N>R; distinct = distinct case JSON",
+		Gen: func(t *rapid.T) ConcCase {
+			return ConcCase{N: rapid.IntRange(2, 16).Draw(t, "n"), R: rapid.IntRange(1, 8).Draw(t, "r"), P: rapid.IntRange(1, 16).Draw(t, "p"),
+				Workers: rapid.IntRange(2, 4).Draw(t, "workers"), Rounds: rapid.IntRange(1, 6).Draw(t, "rounds"), Seed: rapid.Int64().Draw(t, "seed")}
+		},
+		Check: func(c ConcCase, o *pbt.Obs) *pbt.Failure {
+			conn, _ := cluster.NewConn(memberID(0), "127.0.0.1:1", "")
+			for i := 0; i < c.N; i++ {
+				conn.AddNode(memberID(i), "x")
+			}
+			alloc := storage.NewAllocator(conn)
+			defer alloc.Stop()
+			rand.Seed(c.Seed)
+			errs := make(chan string, c.Workers*c.Rounds)
+			done := make(chan struct{})
+			for w := 0; w < c.Workers; w++ {
+				go func() {
+					defer func() { done <- struct{}{} }()
+					for r := 0; r < c.Rounds; r++ {
+						if d := validPlacement(alloc.VerifPlacement(uint(c.P), uint(c.R)), c.N, c.R, c.P); d != "" {
+							errs <- d
+						}
+					}
+				}()
+			}
+			for w := 0; w < c.Workers; w++ {
+				<-done
+			}
+			select {
+			case d := <-errs:
+				return pbt.Failf("C16:concurrent-placement-invalid", "N=%d R=%d P=%d, %d concurrent creators: %s", c.N, c.R, c.P, c.Workers, d)
+			default:
+			}
+			if d := validPlacement(alloc.VerifPlacement(uint(c.P), uint(c.R)), c.N, c.R, c.P); d != "" {
+				return pbt.Failf("C16:placement-invalid-after-concurrent-creates", "N=%d R=%d P=%d after %d concurrent creators: %s", c.N, c.R, c.P, c.Workers, d)
+			}
+			if c.N > c.R {
+				o.NonTrivial()
+			}
+			return nil
+		},
+	})
+}
